@@ -6,7 +6,7 @@
    spec_udp_bytes / spec_tcp_bytes, written from RFC 7252 / RFC 8323). *)
 From Coq Require Import ZArith List Bool.
 From GoCoap Require Import Base.Bytes Gen.OptionDefs Gen.TcpConsts
-     Codec.Options Codec.Udp Codec.Tcp Codec.Spec Codec.ProofsOpt Codec.ProofsC01.
+     Codec.Options Codec.Udp Codec.Tcp Codec.Pool Codec.Spec Codec.ProofsOpt Codec.ProofsC01 Codec.ProofsC02.
 Import ListNotations.
 Open Scope Z_scope.
 
@@ -85,6 +85,23 @@ Proof.
   - apply tcp_decode_spec; assumption.
 Qed.
 Print Assumptions C01_tcp_roundtrip.
+
+(* Pooled path: MarshalWithEncoder returns exactly the encoding, and UnmarshalWithDecoder
+   (copy + capacity-retry loop, from ANY initial option capacity >= 0) gives the message
+   back, consuming all bytes. *)
+Theorem C01_pool_roundtrip : forall m buflen cap, 0 <= cap ->
+  (wf_udp m = true ->
+     pool_marshal udp_size udp_encode_into buflen m = Ok (spec_udp_bytes m) /\
+     exists c, pool_decode (pool_fuel (spec_udp_bytes m)) udp_decode cap (spec_udp_bytes m) = Ok (m, blen (spec_udp_bytes m), c)) /\
+  (wf_tcp messageMaxLen m = true ->
+     pool_marshal tcp_size tcp_encode_into buflen m = Ok (spec_tcp_bytes m) /\
+     exists c, pool_decode (pool_fuel (spec_tcp_bytes m)) tcp_decode cap (spec_tcp_bytes m) = Ok (tcp_view m, blen (spec_tcp_bytes m), c)).
+Proof.
+  intros m buflen cap Hc. split; intros Hwf.
+  - split; [apply pool_marshal_udp; exact Hwf|apply udp_pool_roundtrip; assumption].
+  - split; [apply pool_marshal_tcp; exact Hwf|apply tcp_pool_roundtrip; assumption].
+Qed.
+Print Assumptions C01_pool_roundtrip.
 
 (* The size reported in advance equals the number of bytes the encoder writes. *)
 Theorem C01_size_is_length : forall m buf n k out,
